@@ -25,6 +25,8 @@ structure St where
   ctx : List (String × Int) := []    -- the integer-valued part of the context
   raiseDepth : Nat := 0              -- async `_raise_depth`
   errors : Nat := 0                  -- async: events whose processing failed (logged, loop survives)
+  expCut : Bool := false             -- `_expansion_cut`: the depth bound tripped inside the CURRENT nested
+                                     -- expansion (meaningful only while a top-level built-in is expanding)
 deriving Inhabited
 
 abbrev Snd := Ev → St → St
@@ -126,9 +128,12 @@ def pickBranch (h : Hooks) (s : St) (evType : String) : List (Option J × Option
         | .ok true => take
         | .ok false => pickBranch h s evType rest
 
-/-- `assign` (skipped, like every built-in, once the depth bound is exhausted) -/
+/-- the state `_collect_builtin_followups` leaves when it returns a list: at the cut level
+    (`_action_depth > MAX_ACTION_DEPTH`) the trip is recorded (`_expansion_cut = True`) and nothing else
+    happens — `assign` is skipped there like every built-in; otherwise `assign` is applied -/
 def assignStep (canon : String) (cut : Bool) (a : ActionRef) (s : St) : St :=
-  if canon = Tables.act_ASSIGN ∧ cut = false then { s with ctx := applyAssign a.params s.ctx } else s
+  if cut then { s with expCut := true }
+  else if canon = Tables.act_ASSIGN then { s with ctx := applyAssign a.params s.ctx } else s
 
 /-- after the follow-ups of a built-in ran: an error escaping the nested list is contained here like
     any failing built-in; otherwise `raise` is delivered -/
@@ -138,12 +143,15 @@ def finishBuiltin (h : Hooks) (canon : String) (a : ActionRef) (s2 : St) : St ×
     ((match raisedEvent a with | some e => h.sndRaise e s2 | none => s2), false)
   else (s2, false)
 
-/-- a built-in action: `_collect_builtin_followups`, the follow-ups, then the engine-specific delivery -/
+/-- a built-in action: `_collect_builtin_followups`, the follow-ups, then the engine-specific delivery.
+    Once the depth bound tripped in the current expansion (`s.expCut`), `choose` (the only built-in of the
+    model's fragment that produces follow-ups; in the code also `pure` and `enqueueActions`) returns
+    nothing; `assign`, `raise`, … are not affected by the flag. -/
 def builtinStep (h : Hooks) (nested : List ActionRef → String → St → St) (cut : Bool) (evType : String)
     (canon : String) (a : ActionRef) (s : St) : St × Bool :=
   let bo : BOut :=
     if cut then .followups []
-    else if canon = Tables.act_CHOOSE then pickBranch h s evType (chooseBranches a.params)
+    else if canon = Tables.act_CHOOSE ∧ s.expCut = false then pickBranch h s evType (chooseBranches a.params)
     else .followups []
   match bo with
   | .failed _ => (emit ("#aerr:" ++ a.type) s, true)
@@ -168,11 +176,40 @@ def actStep (h : Hooks) (nested : List ActionRef → String → St → St) (cut 
     | none => (acc.1.fail (.missingAction a.type), true)
     | some canon => builtinStep h nested cut evType canon a acc.1
 
+/-- the expansion a TOP-LEVEL built-in started is over (`f` is the fuel its follow-ups ran with:
+    `MAX_ACTION_DEPTH` exactly when the built-in sat at depth 0): `_expansion_cut` is not read again before
+    the next top-level built-in resets it (`if depth == 0: self._expansion_cut = False`), so the model
+    clears it here — the flag is `false` whenever a top-level list is running, which is what the code's
+    reset establishes for every read. Deeper levels leave it alone: a trip is seen by every later sibling
+    of the same expansion. -/
+def endExpansion (f : Nat) (s : St) : St :=
+  if f = Tables.maxActionDepth then { s with expCut := false } else s
+
+@[simp] theorem endExpansion_cfg (f : Nat) (s : St) : (endExpansion f s).cfg = s.cfg := by
+  unfold endExpansion; split <;> rfl
+@[simp] theorem endExpansion_hist (f : Nat) (s : St) : (endExpansion f s).hist = s.hist := by
+  unfold endExpansion; split <;> rfl
+@[simp] theorem endExpansion_queue (f : Nat) (s : St) : (endExpansion f s).queue = s.queue := by
+  unfold endExpansion; split <;> rfl
+@[simp] theorem endExpansion_status (f : Nat) (s : St) : (endExpansion f s).status = s.status := by
+  unfold endExpansion; split <;> rfl
+@[simp] theorem endExpansion_trace (f : Nat) (s : St) : (endExpansion f s).trace = s.trace := by
+  unfold endExpansion; split <;> rfl
+@[simp] theorem endExpansion_err (f : Nat) (s : St) : (endExpansion f s).err = s.err := by
+  unfold endExpansion; split <;> rfl
+@[simp] theorem endExpansion_ctx (f : Nat) (s : St) : (endExpansion f s).ctx = s.ctx := by
+  unfold endExpansion; split <;> rfl
+@[simp] theorem endExpansion_raiseDepth (f : Nat) (s : St) : (endExpansion f s).raiseDepth = s.raiseDepth := by
+  unfold endExpansion; split <;> rfl
+@[simp] theorem endExpansion_errors (f : Nat) (s : St) : (endExpansion f s).errors = s.errors := by
+  unfold endExpansion; split <;> rfl
+
 /-- `_execute_actions`, with nested expansion (`choose`) bounded by the code's own depth counter:
     `fuel` is `MAX_ACTION_DEPTH + 1 - _action_depth`. -/
 def execActionsF (h : Hooks) : Nat → List ActionRef → String → St → St
   | 0, as, evType, s => (as.foldl (actStep h (fun _ _ s => s) true evType) (s, false)).1
-  | f + 1, as, evType, s => (as.foldl (actStep h (execActionsF h f) false evType) (s, false)).1
+  | f + 1, as, evType, s =>
+    (as.foldl (actStep h (fun fs e s => endExpansion f (execActionsF h f fs e s)) false evType) (s, false)).1
 
 def execActions (h : Hooks) (as : List ActionRef) (evType : String) (s : St) : St :=
   execActionsF h (Tables.maxActionDepth + 1) as evType s
